@@ -140,6 +140,47 @@ def bitsToBytes : (n : Nat) → Bits → List Nat
 def byteTake (n : Nat) (i : Bits) : PResult (List Nat × Bits) :=
   if i.length < 8 * n then .error true else .ok (bitsToBytes n i, i.drop (8 * n))
 
+/-! Linear-time implementations: `i.length < n` walks the whole remaining input, which makes the
+definitions above quadratic when compiled; the `@[csimp]` lemmas replace them by `n`-step tests. -/
+
+/-- `shortBits i n = decide (i.length < n)` in at most `n` steps. -/
+def shortBits : Bits → Nat → Bool
+  | _, 0 => false
+  | [], _ + 1 => true
+  | _ :: r, n + 1 => shortBits r n
+
+theorem shortBits_eq (i : Bits) (n : Nat) : shortBits i n = decide (i.length < n) := by
+  induction n generalizing i with
+  | zero => simp [shortBits]
+  | succ n ih =>
+    cases i with
+    | nil => simp [shortBits]
+    | cons b r => simp [shortBits, ih]
+
+def takeBitsImpl (width count : Nat) (i : Bits) : PResult (Nat × Bits) :=
+  if count = 0 then .ok (0, i)
+  else if shortBits i count then .error true
+  else if width < count then .panic "nom::bits::take: count exceeds the width of the output type"
+  else .ok (bitsToNat (i.take count), i.drop count)
+
+@[csimp] theorem takeBits_eq_impl : @takeBits = @takeBitsImpl := by
+  funext width count i
+  simp [takeBits, takeBitsImpl, shortBits_eq]
+
+def beUintImpl (n : Nat) (i : Bits) : PResult (Nat × Bits) :=
+  if shortBits i (8 * n) then .error true else .ok (bitsToNat (i.take (8 * n)), i.drop (8 * n))
+
+@[csimp] theorem beUint_eq_impl : @beUint = @beUintImpl := by
+  funext n i
+  simp [beUint, beUintImpl, shortBits_eq]
+
+def byteTakeImpl (n : Nat) (i : Bits) : PResult (List Nat × Bits) :=
+  if shortBits i (8 * n) then .error true else .ok (bitsToBytes n i, i.drop (8 * n))
+
+@[csimp] theorem byteTake_eq_impl : @byteTake = @byteTakeImpl := by
+  funext n i
+  simp [byteTake, byteTakeImpl, shortBits_eq]
+
 /-- `nom::bytes::streaming::tag(t)`: a mismatch within the available prefix is `Error`, a matching
 but too short input is `Incomplete`. -/
 def byteTag (t : List Nat) (i : Bits) : PResult (Unit × Bits) :=
@@ -725,11 +766,16 @@ def decorrelate (debug : Bool) (a : ChannelAssignment) : (n : Nat) → (c0 c1 : 
       pure (y0 :: r0, y1 :: r1)
     | _, _ => .panic "Frame::copy_signal: channels[ch][t]"
 
+/-- `n` rounds of "one sample from every channel" (0 where a channel has ended). -/
+def interleaveLoop : Nat → List (List Int) → List Int
+  | 0, _ => []
+  | n + 1, chans => chans.map (fun c => c.headD 0) ++ interleaveLoop n (chans.map List.tail)
+
 /-- Interleaving `dest[t * channel_count + ch] = x`: every channel must have at most `blockSize`
 samples (else the index is out of range); shorter channels leave zeros. -/
 def interleave (blockSize : Nat) (chans : List (List Int)) : DResult (List Int) :=
   if chans.any (fun c => c.length > blockSize) then .panic "Frame::copy_signal: dest[t * channel_count + ch]"
-  else .ok ((List.range blockSize).flatMap fun t => chans.map fun c => c.getD t 0)
+  else .ok (interleaveLoop blockSize chans)
 
 /-- `Decode for Frame`: `decode()` in the given build mode. -/
 def decodeFrameMode (debug : Bool) (f : Frame) : DResult (List Int) := do
@@ -750,6 +796,13 @@ def decodeFrameMode (debug : Bool) (f : Frame) : DResult (List Int) := do
 
 /-- The decoder as the DEBUG build computes it (overflow = panic). -/
 def decodeFrame (f : Frame) : DResult (List Int) := decodeFrameMode true f
+
+/-- The parser accepts `bytes` as exactly one frame, and the decoder (in the given build mode) panics
+on the accepted frame. -/
+def frameAcceptedDecoderPanics (debug : Bool) (info : StreamInfo) (bytes : List Nat) : Bool :=
+  match parseFrame info true bytes with
+  | .ok (f, []) => (decodeFrameMode debug f).isPanic
+  | _ => false
 
 /-! ### harness outcome (`harness/src/parser.rs: outcome`) -/
 
